@@ -307,6 +307,49 @@ func builtTypes(fn *ssa.Function, seen map[*ssa.Function]bool) (typs map[string]
 					}
 				}
 				unknown = append(unknown, fmt.Sprintf("%s: %s", shortFuncName(fn), lv2.String()))
+			case *ssa.Call:
+				// a constructor: a static callee, a local function variable, or an entry of a package-level
+				// table of functions looked up by key (then every entry may be the one)
+				var callees []*ssa.Function
+				if callee := staticCallee(x); callee != nil && callee.Blocks != nil {
+					callees = append(callees, callee)
+				} else if !x.Call.IsInvoke() && curProg != nil {
+					var lk *ssa.Lookup
+					switch y := x.Call.Value.(type) {
+					case *ssa.Extract:
+						lk, _ = y.Tuple.(*ssa.Lookup)
+					case *ssa.Lookup:
+						lk = y
+					}
+					if lk != nil {
+						if u, ok := lk.X.(*ssa.UnOp); ok {
+							if g, ok := u.X.(*ssa.Global); ok {
+								var keys []string
+								ft := curProg.funcTable(g)
+								for k := range ft {
+									keys = append(keys, k)
+								}
+								sort.Strings(keys)
+								for _, k := range keys {
+									if ft[k] != nil && ft[k].Blocks != nil {
+										callees = append(callees, ft[k])
+									}
+								}
+							}
+						}
+					}
+				}
+				if len(callees) == 0 {
+					unknown = append(unknown, fmt.Sprintf("%s: %s", shortFuncName(fn), lv2.String()))
+					continue
+				}
+				for _, callee := range callees {
+					t2, u2 := builtTypes(callee, seen)
+					for k, v := range t2 {
+						typs[k] = v
+					}
+					unknown = append(unknown, u2...)
+				}
 			case *ssa.Global:
 				unknown = append(unknown, "global "+x.Name())
 			case *ssa.UnOp:
